@@ -19,7 +19,7 @@ let subst t =
       Str.global_substitute (Str.regexp_string p) (fun _ -> v) acc)
     t ["$A", admin_s; "$U", user_s; "$R", revoked_s; "$X", unknown_s]
 
-type case = { auth : bool; prof : bool; met : bool; meth : string; path : string; hdr : string }
+type case = { auth : bool; prof : bool; met : bool; fail : bool; meth : string; path : string; hdr : string }
 
 (* "cfg=<a><p><m> <METHOD> <pattern> H-" | "... H=<template>" *)
 let parse (input : string) : case option =
@@ -38,13 +38,13 @@ let parse (input : string) : case option =
           let meth = Stdlib.String.sub input (i1 + 1) (i2 - i1 - 1) in
           let path = Stdlib.String.sub input (i2 + 1) (i3 - i2 - 1) in
           let h = Stdlib.String.sub input (i3 + 1) (n - i3 - 1) in
-          if Stdlib.String.length cfg <> 7 || Stdlib.String.sub cfg 0 4 <> "cfg=" || Stdlib.String.length h < 2 || h.[0] <> 'H' then None
+          if (Stdlib.String.length cfg <> 7 && not (Stdlib.String.length cfg = 8 && cfg.[7] = 'f')) || Stdlib.String.sub cfg 0 4 <> "cfg=" || Stdlib.String.length h < 2 || h.[0] <> 'H' then None
           else
             let hdr = if h = "H-" then Some "" (* absent: c.GetHeader returns "" *)
               else if h.[1] = '=' then Some (subst (Stdlib.String.sub h 2 (Stdlib.String.length h - 2))) else None in
             (match hdr with
              | None -> None
-             | Some hdr -> Some { auth = cfg.[4] = '1'; prof = cfg.[5] = '1'; met = cfg.[6] = '1'; meth; path; hdr })))
+             | Some hdr -> Some { auth = cfg.[4] = '1'; prof = cfg.[5] = '1'; met = cfg.[6] = '1'; fail = Stdlib.String.length cfg = 8; meth; path; hdr })))
 
 let err_s = function
   | Auth.ErrMissingAuthHeader -> "ErrMissingAuthHeader"
@@ -61,7 +61,7 @@ let model input =
   | Some c ->
     let r = route c in
     if Auth.under_api r then
-      (match Auth.decide c.auth admin table (Auth.needs_admin r) (coq_of_string c.hdr) with
+      (match Auth.decide c.auth admin (Auth.visible (not c.fail) table) (Auth.needs_admin r) (coq_of_string c.hdr) with
        | Auth.Reached -> "pass"
        | Auth.Denied e -> "401 " ^ err_s e ^ " unchanged")
     else "pass"   (* routes outside the API group carry no authentication middleware *)
@@ -74,8 +74,15 @@ let spec input obs =
     if not (Auth.under_api r) then
       (if Auth.allow c.prof c.met r then "OK" else "FAIL route-outside-prefix-not-allowlisted " ^ c.meth ^ " " ^ c.path)
     else begin
-      let must_reach = Auth.spec_reaches c.auth admin table r (coq_of_string c.hdr) in
+      (* token store failing: what must still be refused is decided with the real table (nothing may be admitted
+         that a working store refuses); what must still be reached is decided with the empty table (the admin
+         token); an issued token may be refused while its lookup fails (fail closed) *)
+      let may_reach = Auth.spec_reaches c.auth admin table r (coq_of_string c.hdr) in
+      let must_reach = Auth.spec_reaches c.auth admin (Auth.visible (not c.fail) table) r (coq_of_string c.hdr) in
       let w = words obs in
+      if c.fail && may_reach && not must_reach then
+        (match w with ["pass"] | ["401"; _; "unchanged"] -> "OK" | _ -> "FAIL malformed-observable " ^ obs)
+      else
       match must_reach, w with
       | true, ["pass"] -> "OK"
       | true, _ -> if c.auth then "FAIL valid-credential-rejected " ^ obs else "FAIL auth-disabled-route-rejected " ^ obs
